@@ -81,11 +81,24 @@ def unitNs : Int := 1000000000
 def sc (x : Int) : Int := x * unitNs
 def scO (x : Option Int) : Option Int := x.map sc
 
+/-- `acidr`: `-` or comma-separated `4:<base>:<plen>` / `6:<base>:<plen>` (decimal) -/
+def pCIDRs (s : String) : Option (List CIDR) :=
+  if s = "-" then some [] else
+    (s.splitOn ",").mapM fun c =>
+      match c.splitOn ":" with
+      | [f, b, l] => do
+        let v4 ← (match f with | "4" => some true | "6" => some false | _ => none)
+        let base ← b.toNat?
+        let plen ← l.toNat?
+        if plen ≤ (if v4 then 32 else 128) then pure { v4, base, plen } else none
+      | _ => none
+
 def pRole (kv : KV) : Option Role := do
   let names ← nameRole kv
   pure {
     names,
     allowIPSANs := ← pBool (← get kv "ipok"),
+    allowedIPCIDRs := ← pCIDRs (← get kv "acidr"),
     allowedURISANs := ← pStrList (← get kv "auri"),
     keyType := ← get kv "kt",
     keyBits := ← pNat (← get kv "kb"),
